@@ -186,7 +186,7 @@ claim("C10",
       design_ref="DESIGN.md §5 C10")
 
 claim("C11",
-      text="Proved for all inputs of the model of tsql (26 theorems, incl. pins: the 20 lexer classes in order, operator table, function constants, defaults): the hash join equals the nested-loop comprehension (order and "
+      text="Proved for all inputs of the model of tsql (39 theorems, incl. pins: the 20 lexer classes in order, operator table, function constants, defaults): the hash join equals the nested-loop comprehension (order and "
            "multiplicity); each join step keeps exactly the pairs that agree on every shared key name; select is the left-deep "
            "nested-loop join filtered by the condition and projected in order; every returned row is justified by one witness "
            "row per relation satisfying the condition; the single-relation case is stored order and multiplicity; '*' emits "
@@ -225,7 +225,7 @@ claim("C17",
       design_ref="DESIGN.md §5 C17")
 
 claim("C20",
-      text="Lean 4 theorems (32, incl. pins: codec capabilities and frames, format-name constants, defaults, caught exceptions, converter probe on 36 pairs) over a model of commands.convert (format-name parsing, codec and converter selection, per-item "
+      text="Lean 4 theorems (61 = 32 + 29 of the integration layer lean/Verif/Integration; incl. pins: codec capabilities and frames, format-name constants, defaults, caught exceptions, converter probe on 36 pairs) over a model of commands.convert (format-name parsing, codec and converter selection, per-item "
            "error isolation, and the header + joiner.join(parts) + footer assembly with its indent and -lines paths) prove, for "
            "every item list including N = 0, for every codec module, with and without indentation and -lines, that the "
            "assembled text is read back by the target family's document reader as exactly the converted items in order. The side "
@@ -234,17 +234,17 @@ claim("C20",
            "exactly for mrs→dmrs, dmrs→mrs, mrs→eds) is proved. Relative to the per-item round-trip hypotheses that C01–C03 establish "
            "(RoundTrips, WritesItems, stated over an opaque item codec), loads(convert(items)) is exactly the N converted "
            "structures in order (loads_convert) and transcoding to another format of the same representation and back "
-           "reproduces the structures up to what both formats carry (transcode_there_and_back, transcode_identity_on_common).",
+           "reproduces the structures up to what both formats carry (transcode_there_and_back, transcode_identity_on_common). Integration layer (29 theorems): the pipeline composes — for every MRS satisfying named decidable hypotheses on the source only, the outputs of the C04 dmrs.from_mrs and C05 eds.from_mrs models satisfy the hypotheses of C02's and C03's round-trip theorems (mrs_dmrs_expressible, mrs_eds_expressible; F38's hypothesis holds for every from_mrs output; SimpleDMRS needs NoUSort = F11, with a counter-example theorem), so decode(encode(from_mrs m)) = from_mrs m for SimpleDMRS, DMRX, DMRS-JSON, native EDS and EDS-JSON; the composed model of convert(simplemrs → simpledmrs/dmrx/dmrsjson/eds/edsjson) on the encoder's own text equals the target encoder applied to the conversion and is read back by the target decoder, for single items and documents; C04's MRS→DMRS→MRS theorems still apply after a codec round trip.",
       note="Items are opaque texts in the model; that each real item text satisfies the stated item predicate is checked on every "
            "generated conversion, not proved. That the real codecs read each item back correctly, the same-representation "
            "transcoding clause, the reading side (files, streams, TSQL selection) and the export-only block clause are decided by "
            "the direct oracle on the real code only. Kept out of the generators: DMRS nodes of type 'u' (F11), mutual non-scopal "
-           "arguments in one scope (F08), newlines inside strings; indexedmrs without generated items.",
+           "arguments in one scope (F08), newlines inside strings. The integration layer is tied to the real code by its own correspondence block in every run (real from_mrs + real codecs' string APIs + commands.convert vs the composed model, field by field; the Lean hypothesis predicates vs a Python restatement) and a direct oracle (decode(encode(from_mrs(m))) == from_mrs(m); convert == frame(encode ∘ converter ∘ decode)); adapters between the islands' types are proved mutually inverse; alignments other than character spans and EDS identifier choices depending on Python set order are answered 'unmodelled'.",
       technique="Lean 4 proof over executable model + generated constant tables + differential correspondence",
       design_ref="DESIGN.md §5 C20")
 
 claim("C03",
-      text="Proved for all graphs and all (properties, lnk, show_status, indent) (24 theorems, incl. c03_pins: the 13 lexer token classes, JSON framing, signatures and the load skeletons of 47 anchored functions read from the live code): the native decoder run on the "
+      text="Proved for all graphs and all (properties, lnk, show_status, indent) (30 theorems, incl. c03_pins: the 13 lexer token classes, JSON framing, signatures and the load skeletons of 47 anchored functions read from the live code): the native decoder run on the "
            "encoder's token stream followed by anything returns the graph (exact top detection by the 2–3 token look-ahead, node "
            "loop, property and edge blocks, constant escaping, alignments) and stops after the closing brace; re-encoding "
            "reproduces the text; multi-graph documents are read graph by graph; suppression removes exactly properties plus type "
@@ -252,15 +252,18 @@ claim("C03",
            "form returns the same top and multiset of nodes in span order; the PENMAN triple form returns the graph for graphs "
            "connected from the top. The main native clause carries the forced hypothesis that no untyped node has properties "
            "(F38, known finding, decide-checked counter-example).",
-      note="The regex lexer is not modelled: the token view of the encoder output is compared with the real lexer on every "
-           "generated case, and damaged texts go through the real lexer into the model's parser. The json and penman libraries "
+      note="Round 4: the native EDS lexer is modelled at character level (13 pinned classes) and the theorems hold at TEXT level for "
+           "both layouts, all option vectors and multi-graph documents (lexer_reads_encoder_text, native_roundtrip_text, "
+           "docs_roundtrip_text, reencode_stable_text) under the decidable predicate lexOKb (symbols non-empty, free of blanks, line "
+           "breaks and `: , < ( [ ] { }`, not starting with `|` or `#`). That the character model equals the regex engine is compared "
+           "on every generated, damaged and stress text. The json and penman libraries "
            "are identity parameters; the oracle goes through their real text. Upper/lower case modelled for ASCII. Duplicate node "
            "ids, dangling edge targets and non-symbol strings are outside the theorems (correspondence only).",
       technique="Lean 4 proof over executable model + differential correspondence with the Python implementation",
       design_ref="DESIGN.md §5 C03")
 
 claim("C01",
-      text="For the models of the MRS codecs it is proved (28 theorems, incl. five pin theorems over 105 constant lists / 777 constants read from the live code: both lexers' token tables, escapes, predicate/variable regexes, MRX tag and attribute names, JSON keys, defaults), for all inputs: (a) escaping/unescaping and the "
+      text="For the models of the MRS codecs it is proved (34 theorems, incl. five pin theorems over 105 constant lists / 777 constants read from the live code: both lexers' token tables, escapes, predicate/variable regexes, MRX tag and attribute names, JSON keys, defaults), for all inputs: (a) escaping/unescaping and the "
            "double-quoted-string scanner are exact inverses and the scanner stops exactly at the closing quote; (b) "
            "Lnk(str(l)) = l for all kinds; (c) SimpleMRS: the recursive-descent decoder run on the encoder's token list followed "
            "by any further tokens returns top, index, EPs, hcons, icons unchanged — lnk/surface removed exactly when lnk=False — "
@@ -271,10 +274,12 @@ claim("C01",
            "MRS-JSON dictionary round trip and stability for character-span alignments; (e) MRX ElementTree round trip "
            "(xml.etree as identity parameter); (f) Indexed MRS token round trip for a covering SEM-I with CARG at any position in "
            "the synopsis (repaired lookup F33/F50/F53): same predications and arguments, with remainder.",
-      note="Not proved: for Indexed MRS that matching the written property lists against the SEM-I returns the original property "
-           "maps (needs subsumption facts about the SEM-I's property hierarchy; stated as hypothesis); the indented layouts; the "
-           "Indexed MRS regex lexer; MRX/JSON text level (library parameters, side-checked per case). The models (incl. the "
-           "SimpleMRS lexer model) are tied to the code by correspondence on generated cases: real lexer tokens of real encoder "
+      note="Round 4: the Indexed MRS round trip states the decoded property maps explicitly (indexed_roundtrip, "
+           "indexed_same_properties) under the decidable SEM-I predicate propsCover (each written value is subsumed by the declared "
+           "one) instead of a matching hypothesis; the Indexed MRS lexer is modelled at character level (indexed_lex_render, "
+           "indexed_text_roundtrip); the indented SimpleMRS layout is proved at text level (simplemrs_lex_indented, "
+           "simplemrs_text_roundtrip_indented). Not proved: the indented Indexed MRS and MRX layouts; MRX/JSON text level (library "
+           "parameters, side-checked per case). The models (incl. the SimpleMRS and Indexed MRS lexer models) are tied to the code by correspondence on generated cases: real lexer tokens of real encoder "
            "text, decoded structures, re-encodings, element trees and dictionaries; long multi-item documents (>1024 and >2048 "
            "lexer tokens, item boundaries at every offset around the buffer size) and a purity clause (state across calls, "
            "fresh disagreeing SEM-I per case) run in every tier. Case folding is ASCII. U+2029 is treated as a line separator.",
@@ -282,7 +287,7 @@ claim("C01",
       design_ref="DESIGN.md §5 C01")
 
 claim("C02",
-      text="Proved for the Lean model (27 theorems, incl. c02_pins: the 15 SimpleDMRS lexer token classes, format strings, DMRX tag/attribute names, JSON keys, PENMAN role formats, predicate regexes, Lnk formats, look-ahead sizes and the defaults of all four codecs, 60 constant lists read from the live code). SimpleDMRS: token-level encode/decode round trip with arbitrary remainder for "
+      text="Proved for the Lean model (36 theorems, incl. c02_pins: the 15 SimpleDMRS lexer token classes, format strings, DMRX tag/attribute names, JSON keys, PENMAN role formats, predicate regexes, Lnk formats, look-ahead sizes and the defaults of all four codecs, 60 constant lists read from the live code). SimpleDMRS at TEXT level (round 4: character-level model of the 15-class lexer, lexText (render ts) = ts, decodeText (encodeText d) = view d for single-line and indented layouts and multi-graph documents under the decidable string predicate lexOK, and text-level stability) on top of the token-level encode/decode round trip with arbitrary remainder for "
            "all option settings and the list API, under the explicit expressibility predicate, and stability of re-encoding; the "
            "F11 hypothesis 'no node of type u' is isolated as _partial, with a counter-example theorem (known finding). "
            "DMRS-JSON: dictionary round trip and dict-level stability. DMRX: tree round trip with no predicate hypothesis "
@@ -291,7 +296,7 @@ claim("C02",
            "SimpleDMRS; lnk=false removes alignment and surface. The node-0 top-link normalisation lemmas. DMRS-PENMAN: "
            "fromTriples (toTriples d) = viewP d for graphs connected from the top, with the bijective renumbering from 10000 "
            "(top first, consecutive).",
-      note="Compared, not proved: the regex lexer, the text layouts, indent, and the file API. Assumed as parameters and checked by "
+      note="Compared, not proved: that the character model equals the regex engine (the pinned patterns and the correspondence on every text incl. ~770 stress texts tie it), that render equals the format-string encoder text character for character, \d/\s beyond ASCII digits and the fixed blank list, and the file API. Assumed as parameters and checked by "
            "side oracles: xml.etree, json, penman (up to node order; literal PENMAN text stability is not demanded, graph "
            "equality each round is), ASCII case mapping. Every tier runs long multi-graph documents for every codec "
            "(>1024 and >2048 lexer tokens; >16 KiB and >64 KiB texts through the string, stream and file APIs), a purity clause (15 "
@@ -302,7 +307,7 @@ claim("C02",
       design_ref="DESIGN.md §5 C02")
 
 claim("C15",
-      text="Lean 4 theorems (21, incl. pins: the lexer pattern, group numbers, layout constants, list type names, format strings) over a model of delphin.tdl/tfs prove, for all inputs, the token-level round trip of the whole "
+      text="Lean 4 theorems (22, incl. pins: the lexer pattern, group numbers, layout constants, list type names, format strings) over a model of delphin.tdl/tfs prove, for all inputs, the token-level round trip of the whole "
            "term grammar: parse (toks x ++ rest) = ok (canon x, rest) for nested conjunctions, AVMs with dotted paths, cons "
            "lists (closed, open, dotted, empty), diff lists, coreferences, strings, regexes and docstrings; the round trip of "
            "every top-level item kind (type definitions, addenda incl. docstring-only, lexical rules with affix patterns, letter "
@@ -311,7 +316,7 @@ claim("C15",
            "Conjunction wrapper around a one-feature AVM, decide-checked counter-example); docstring escape idempotence and "
            "exact lexer scanning for every docstring text and indentation; case-insensitive path access; invariance of the "
            "expanded feature list.",
-      note="Proved at token level for unbounded but unspecified parser fuel. Not modelled: line layout/widths, the regex lexer for "
+      note="Proved at token level with explicit linear fuel bounds; parse_file is stated for the driver's own fuel (|tokens|+1 items, 6·|tokens|+10 per definition); fuel independence on arbitrary malformed token lists is not proved (an exhausted budget is a distinct, never-observed answer). Structures built by histories of public mutators (set/del/re-set with dotted paths and letter case, append/terminate, add/&, normalize) are generated, modelled and compared with the same structure built in one go. Not modelled: line layout/widths, the regex lexer for "
            "non-docstring tokens, tabs and other white space in docstrings, non-ASCII case folding; these are tied by comparing, "
            "on ~2.7k generated cases per quick run, the real lexer's tokens on the real formatter's text, the real parse results, "
            "the second format, expanded features and constructor results, and parser errors on mutated token streams. Text layout "
@@ -320,7 +325,7 @@ claim("C15",
       design_ref="DESIGN.md §5 C15")
 
 claim("C06",
-      text="For the Lean model of is_isomorphic/_vf2 (18 theorems, incl. c06_pins: names and constants of 15 anchored functions and defaults read from the live code; repaired code: antiparallel edge labels merged, self-loop labels "
+      text="For the Lean model of is_isomorphic/_vf2 (23 theorems, incl. c06_pins: names and constants of 15 anchored functions and defaults read from the live code; repaired code: antiparallel edge labels merged, self-loop labels "
            "compared, properties of CARG-bearing predications compared): is_isomorphic never raises; its True is exactly "
            "isomorphism of the two encoding graphs — a bijection on variables and predications preserving the node-label entry "
            "(normalised predicate, constant, properties when requested) and all role, scope and constraint edges in both "
@@ -328,12 +333,12 @@ claim("C06",
            "completeness of the backtracking search with its candidate selection and every feasibility test (no extra "
            "hypotheses, no fuel bound). Hence it is reflexive (unconditionally), symmetric and transitive, and depends only on "
            "the isomorphism class of the encoding graphs. Bag comparison satisfies both counting identities for any predicate, "
-           "and under is_isomorphic a bag compared with a shuffled list of isomorphic copies of itself is entirely shared.",
+           "and under is_isomorphic a bag compared with a shuffled list of isomorphic copies of itself is entirely shared. Round 4, the encoding side: _make_mrs_isograph is characterised as a replay of an explicit write list (mkIsoGraph_eq_writes); is_isomorphic m (rename σ m) = True for every renaming injective on the variables (isIsomorphic_renamed), likewise for every permutation of RELS/HCONS/ICONS (isIsomorphic_reordered) and both at once, under named decidable hypotheses (NamesOK, SimpleIds, rowsOK, NoParallel) evaluated on every generated case; a True verdict implies equal multisets of predication node labels (faithful_labels_partial) and a single changed predicate, constant or compared property value gives False (single_label_change_rejected).",
       note="Clean edge labels (no role starting with '--' or containing ' --') are assumed for soundness, symmetry and "
            "transitivity; a decide-checked counter-example shows the assumption is necessary. Not proved, oracle-checked only "
-           "(exhaustive bijection search ≤7 predications, invariance checks ≤40, colour-refinement certificate): a renamed or "
-           "reordered MRS has an isomorphic encoding graph; isomorphic MRSs pass the size pre-checks; a graph isomorphism reads "
-           "as an MRS isomorphism. The model is tied to the code by comparing the graph, the augmented graph, the returned "
+           "(exhaustive bijection search ≤7 predications, invariance checks ≤40, colour-refinement certificate): isomorphic "
+           "MRSs pass the size pre-checks; a graph isomorphism reads back as an MRS isomorphism on scopes, arguments and "
+           "constraints (the label part is proved). The model is tied to the code by comparing the graph, the augmented graph, the returned "
            "mapping (candidate and backtracking order) and the verdict on every generated pair. Input space: distinct intrinsic "
            "variables, no parallel constraints, alphanumeric role names.",
       technique="Lean 4 proof over executable model (soundness + completeness of the matcher) + differential correspondence + exhaustive oracle",
@@ -360,7 +365,7 @@ claim("C19",
       design_ref="DESIGN.md §5 C19")
 
 claim("C13",
-      text="Proved for the Lean model of delphin.repp (27 theorems, incl. c13_pins: the template regex, escapes, mask sentinels, loader prefix characters, constants and defaults of the anchored functions read from the live code), for every template, match list, program and input: the string "
+      text="Proved for the Lean model of delphin.repp (30 theorems, incl. c13_pins: the template regex, escapes, mask sentinels, loader prefix characters, constants and defaults of the anchored functions read from the live code), for every template, match list, program and input: the string "
            "built by the offset-tracking loop of _REPPRule._apply/_process_match equals ordered regex substitution (no hypothesis "
            "on the template: groups in any order, repeated, unmatched optional groups, escapes); the tracked/untracked split "
            "loses nothing of the template; groups, iterative groups reach a fixpoint of their body exactly when one is reached "
@@ -377,8 +382,11 @@ claim("C13",
            "pattern (validity — ordered, non-overlapping, inside the string — checked on every list). Compared on generated "
            "cases: model vs delphin.repp on all verbose trace steps; direct oracle re.sub in order with iteration until "
            "unchanged. stdlib re instead of regex; the loader model is compared with the real loader on every generated program text and on "
-           "raw/damaged line lists; mask blocking is compared step by step incl. mask arrays; no theorem yet links a loaded "
-           "module to the executable operation tree (done by the harness, oracle-checked); non-terminating iterative groups (length-increasing rules) are excluded; strings capped "
+           "raw/damaged line lists; mask blocking is compared step by step incl. mask arrays; round 4 links the loaded "
+           "module to the executable operation tree in the model (Link.applyText; apply_text_main, apply_text_include = splice, "
+           "apply_text_of_tree), the driver runs every program from its rendered TEXT and the harness's own tree is only compared; "
+           "argument types of the documented signature (active as list/tuple/set/generator/iterator, modules as other Mappings) are part "
+           "of the purity battery; non-terminating iterative groups (length-increasing rules) are excluded; strings capped "
            "at 160 characters.",
       technique="Lean 4 proof over executable model (regex engine as parameter) + differential correspondence + re.sub oracle",
       design_ref="DESIGN.md §5 C13")
